@@ -99,8 +99,8 @@ func c08Fault(log []drv.Op, k int) (*drv.Env, *drv.Violation) {
 		had := e.Failed != nil
 		err := e.Open(o)
 		if err != nil {
-			if had || e.Failed == nil {
-				return drv.Violf("Open failed without an injected fault: %v", err)
+			if had || e.Failed == nil || drv.IsPanic(err) {
+				return drv.Violf("Open failed without an injected fault (or panicked): %v", err)
 			}
 			e.Label("fault-in-open-" + e.Failed.Kind)
 			if err := e.Open(o); err != nil {
